@@ -234,7 +234,8 @@ def standard_main(mod, tier, seed, replay=None):
     try:
         payload = [{k: v for k, v in rec.items() if not k.startswith("_")} for rec in to_validate]
         verdicts, stats = tlc.validate(mod.TRACE_MODULE, mod.TRACE_CFG, payload, shards=getattr(mod, "SHARDS", 12),
-                                       timeout=getattr(mod, "TRACE_TIMEOUT", 1500), tag=prop)
+                                       timeout=getattr(mod, "TRACE_TIMEOUT", 1500), tag=prop,
+                                       group_key=getattr(mod, "GROUP_KEY", None))
         rep.add_trace_stats(stats)
     except tlc.TLCError as e:
         rep.machinery(str(e))
